@@ -183,7 +183,10 @@ class Prop:
                            "final": final,
                            # on_trait_change(..., deferred=True): defaults along the name
                            # are not forced into existence by the registration
-                           "deferred": c.random() < 0.25},
+                           "deferred": c.random() < 0.25,
+                           # ops executed BEFORE the two registrations: they are made on
+                           # a graph that exists already
+                           "pre": c.choice([0, 0, 2, 4])},
                 "ops": ops}
 
     def execute(self, trace, env):
@@ -222,18 +225,26 @@ class Prop:
         root = world.nodes[0]
         rootm = world.mnodes[0]
         world.pinned_uids = {rootm.uid}
-        _, e = sut(root.on_trait_change, hl, name, deferred=bool(cfg.get("deferred")))
-        if e is not None:
-            raise Violation("C16.registration", "on_trait_change(%r) raised %r" % (name, e), 0)
-        _, e = sut(root.observe, ho, G.render_text(ast))
-        if e is not None:
-            raise Violation("C16.registration", "observe(%r) raised %r"
-                            % (G.render_text(ast), e), 0)
-        registered = True
+
+        def register_both(step):
+            _, e = sut(root.on_trait_change, hl, name, deferred=bool(cfg.get("deferred")))
+            if e is not None:
+                raise Violation("C16.registration", "on_trait_change(%r) raised %r" % (name, e),
+                                step)
+            _, e = sut(root.observe, ho, G.render_text(ast))
+            if e is not None:
+                raise Violation("C16.registration", "observe(%r) raised %r"
+                                % (G.render_text(ast), e), step)
+        npre = cfg.get("pre", 0)
+        registered = False
+        started = False
         agree_yes = agree_no = structural = 0
         for i, op in enumerate(trace["ops"]):
             env.begin_op(i, op)
             k = op["k"]
+            if not started and i >= npre:
+                register_both(i)
+                registered = started = True
             if registered and cfg["remove_at"] is not None and i >= cfg["remove_at"]:
                 _, e1 = sut(root.on_trait_change, hl, name, remove=True)
                 _, e2 = sut(root.observe, ho, G.render_text(ast), remove=True)
@@ -324,6 +335,8 @@ class Prop:
                       tuple(pattern))
             env.cover(k, op.get("op", {}).get("k") if isinstance(op.get("op"), dict) else None,
                       registered)
+        if not started:
+            register_both(len(trace["ops"]))
         if routed:
             raise Violation("C16.handler-exception", "an exception was routed to the %s exception "
                             "handler" % routed[0], None)
